@@ -336,7 +336,10 @@ class IMMachine(FormatMachine):
         cell = s.model["cells"].get(variant, {}).get(arch)
         if cell is None or iid not in cell:
             return "noop"
-        s.obj.images[variant][arch].discard(s.pool[iid])
+        if len(iid) % 2:
+            s.obj[variant][arch].discard(s.pool[iid])           # (the manifest's own subscript: manifest[variant][arch] IS the cell)
+        else:
+            s.obj.images[variant][arch].discard(s.pool[iid])
         cell.remove(iid)
         if not cell:
             CTX.probe("im.empty_cell_left_behind")
@@ -655,7 +658,8 @@ class IMMachine(FormatMachine):
         dup = copy.deepcopy(cells[v][a][i])
         dup["checksums"] = dict((k, val + "0") for k, val in dup["checksums"].items())
         if not op.get("same_path"):
-            dup["path"] = dup["path"] + ".dup"
+            # (a file NAME says nothing about the identity: the copy may carry the suffix of another image format)
+            dup["path"] = dup["path"] + [".dup", ".qcow2", ".raw.xz", ".tar.gz"][int(op.get("pick", 0)) % 4]
         raw = op.get("raw")
         # the colliding entry may SPELL the same identity differently: a key the reader defaults left out, a number as text
         if raw == "drop-format" and dup.get("format") == "iso":
